@@ -84,7 +84,7 @@ func addMap(dst, src map[string]int) {
 }
 
 func genOptsFor(tier, domain, arch string) genOpts {
-	return genOpts{tier: tier, domain: domain, bits32: arch == "386", lim: art.VerifMaxPrefixLen, churnBias: os.Getenv("VERIF_POINTS") != ""}
+	return genOpts{tier: tier, domain: domain, bits32: arch == "386", lim: art.VerifMaxPrefixLen, churnBias: os.Getenv("VERIF_POINTS") != "", growBias: os.Getenv("VERIF_GCPERCENT") != ""}
 }
 
 func workerMain(args []string) int {
@@ -181,7 +181,10 @@ func workerMain(args []string) int {
 			hangLimit = 10 * time.Minute
 		}
 		if *prop == "C16" {
-			hangLimit = 3 * time.Minute
+			hangLimit = 3 * time.Minute // race instrumentation, up to 8 goroutines, two passes
+			if *tier == "thorough" {
+				hangLimit = 12 * time.Minute
+			}
 		}
 		runIdx := i
 		wd := time.AfterFunc(hangLimit, func() {
@@ -531,5 +534,12 @@ func secondPass(tr *Trace, known string, tag string) (v *Violation, tx uint64, s
 func applyGCStress() {
 	if p := envInt("VERIF_GCPERCENT", 0); p > 0 {
 		debug.SetGCPercent(p)
+		// and one goroutine that keeps a collection cycle in flight all the time
+		go func() {
+			for {
+				runtime.GC()
+				runtime.Gosched()
+			}
+		}()
 	}
 }
